@@ -15,7 +15,8 @@ SPEC = {
         ('K-update(stop flags)', 'update', '^debug:'),
         ("_match_states(stopped entries are never expanded)", 'match_states', r'^select:'),
         ("non-emitting search(stopped marking only under debug; only live entries continued)", 'ne_end', r'^(debug:|ne-end:only-live)'),
-        ("_build_node_path(a stopped entry is never chosen)", 'final_choice', r'live')],
+        ("_build_node_path(a stopped entry is never chosen)", 'final_choice', r'live'),
+        ("match(only non-stopped entries count as solutions; early stop at 0 returns ([],0))", 'match', r'^(loop:(early-stop|continues)|result:empty)')],
     'bounded': [
         ('error-vs-debug-level', suites.case_C19, 1500, 25000, RULE + '; ' + 'non-trivial = at least one candidate was cut off', '')],
 }
